@@ -43,7 +43,7 @@ RULE = ('case = (config or composition, seed, operation sequence, hostile schedu
 ASSUMPTIONS = ['the library generator is created/seeded by the harness before snapshots; construction-time sampling by the YAML '
                'factory (which legitimately uses the library generator) happens before the first snapshot']
 REQUIRED = {'quick': {'pairs.compared': 60, 'ops.snapshotted': 5000, 'ops.consumed_randomness': 300, 'hostile.actions': 1000,
-                      'children.compared': 40, 'compositions.compared': 10}}
+                      'children.compared': 40, 'compositions.compared': 10, 'reseeded.compared': 50}}
 
 
 def ops_for(rng, n):
@@ -224,6 +224,19 @@ def compare_pair(ctx, label, kind, data, seed, nops, sched_seed, payload, other_
         d = first_difference(solo, again)
         ctx.violation('reproducible', 'trace.differs_on_repetition',
                       f'{label} seed {seed}: two plain runs differ at operation #{d[0]}: {d[1]} vs {d[2]}', 'pair_case', payload)
+    # re-use: an environment that already lived through another seeded episode, then given this seed again
+    used = make_env(kind, data, seed + 991)
+    okw, _ = call_real(run_trace, used, ops[: max(10, len(ops) // 3)])
+    if okw:
+        used.set_seed(seed)
+        okr, reused = call_real(run_trace, used, ops)
+        ctx.ev()
+        ctx.hit('reseeded.compared')
+        if okr and reused != solo:
+            d = first_difference(solo, reused)
+            ctx.violation('reproducible', 'trace.differs_after_reseeding',
+                          f'{label} seed {seed}: an environment used before and then re-seeded differs from a fresh one at operation '
+                          f'#{d[0]}: {d[1]} vs {d[2]}', 'pair_case', payload)
     # hostile interleaving
     srng = gen.rng_for('C02sched', label, seed, sched_seed)
     others = []
